@@ -37,6 +37,9 @@ def make_stubs(c, rec):
 
         def __init__(self, x, y):
             self.x, self.y = list(x), list(y)
+            # SciPy's InterpolatedUnivariateSpline (k=3) needs m > k points
+            if len(self.x) <= 3:
+                raise ValueError("m must be > k")
             rec.spline.append((self.x, self.y))
 
         def __call__(self, xq):
@@ -422,14 +425,18 @@ def _replay_body(emg3d, cex, wit, mode, temcalls):
                             abs(out[i]-fdata[k]) > 1e-9*abs(fdata[k]):
                         msgs.append(f"datum {k} not passed through to "
                                     f"slot {i}: {out[i]} vs {fdata[k]}")
-            if np.any(ext) and fc.size >= 2:
-                lo = np.argmin(fc)
-                e_re = out[ext].real
-                if np.any(np.abs(e_re-fdata[0].real) >
-                          1e-6*max(1, abs(fdata[0].real))) and \
-                        fr[ext].max() < 1e-3*fc.min():
-                    msgs.append("extrapolated real part not at the lowest "
-                                "computed value")
+            if np.any(ext):
+                # specification of the extrapolation: PCHIP through the
+                # anchor (1e-100 Hz, Re d[0]) and exactly the computed data
+                from scipy.interpolate import PchipInterpolator
+                fx = np.r_[1e-100, fc]
+                dx = np.r_[fdata[0].real-1e-100j, fdata]
+                want = PchipInterpolator(fx, dx.real)(fr[ext]) + \
+                    1j*PchipInterpolator(fx, dx.imag)(fr[ext])
+                if np.abs(out[ext]-want).max() > 1e-9*max(
+                        1.0, np.abs(want).max()):
+                    msgs.append("extrapolated values are not PCHIP through "
+                                "(1e-100 Hz, Re d[0]) and the computed data")
             # history on the same instance
             keep = out.copy()
             fd2 = rng.normal(size=fc.size)+1j*rng.normal(size=fc.size)
@@ -480,12 +487,16 @@ def main(tier):
     run.extra['hashes'] = {k: v for k, v in shadow.hashes().items()
                            if k == 'emg3d/time.py'}
     if tier == 'quick':
+        # (the spline needs >= 4 computed frequencies: coarse cases with
+        # fewer end in SciPy's ValueError, a loud failure)
         cases = [(3, 'none'), (4, 'none'), (4, 'every2'), (3, 'input2'),
-                 (3, 'input3')]
+                 (10, 'every2'), (3, 'input4')]
     else:
         cases = [(n, m) for n in (2, 3, 4, 5) for m in ('none', 'every2',
                                                         'every3')] + \
-            [(3, 'input2'), (3, 'input3'), (4, 'input3'), (4, 'input4')]
+            [(3, 'input2'), (3, 'input3'), (4, 'input3'), (4, 'input4'),
+             (8, 'every2'), (10, 'every2'), (12, 'every3'), (3, 'input4'),
+             (4, 'input5')]
     obs = pmap(_dispatch, [('case_bookkeeping', x) for x in cases])
     run.add(obs)
     run.bounds = dict(cases=cases, symbolic="required frequencies (sorted, "
